@@ -117,19 +117,26 @@ def tailKeys : List Key := [.sel 0, .bh 0]
 
 /-! ### `_simplify_down` rules -/
 
-/-- `Head._simplify_down` on an Elemwise frame: operand `o` becomes `Head(o, n, k)` with `k` the
-    `npartitions` OPERAND of the head, unless it is not an Expr or the frame broadcasts it -/
-def headPush (selfNdim : Nat) (ops : List Operand) (n : Nat) (k : Int) : List (Option (Nat × Int)) :=
-  ops.map (fun o => if o.isExpr && !broadcastDep selfNdim false o then some (n, k) else none)
+/-- `_has_ambiguous_operand(expr)` (D64): `expr.npartitions == 1 and any(isinstance(op, Expr) and
+    0 < op.ndim < expr.ndim for op in expr.operands)` -/
+def ambiguous (selfNdim selfNp : Nat) (ops : List Operand) : Bool :=
+  selfNp == 1 && ops.any (fun o => o.isExpr && decide (0 < o.ndim) && decide (o.ndim < selfNdim))
+
+/-- `Head._simplify_down` on an Elemwise frame: no rewrite (`none`) when an operand is ambiguous; otherwise
+    operand `o` becomes `Head(o, n, k)` with `k` the `npartitions` OPERAND of the head, unless it is not an
+    Expr or the frame broadcasts it -/
+def headPush (selfNdim selfNp : Nat) (ops : List Operand) (n : Nat) (k : Int) : Option (List (Option (Nat × Int))) :=
+  if ambiguous selfNdim selfNp ops then none
+  else some (ops.map (fun o => if o.isExpr && !broadcastDep selfNdim false o then some (n, k) else none))
 
 /-- nested heads: `Head(self.frame.frame, min(self.n, self.frame.n), self.frame.operand("npartitions"))` -/
 def headNested (nOuter : Nat) (_kOuter : Int) (nInner : Nat) (kInner : Int) : Nat × Int :=
   (min nOuter nInner, kInner)
 
-/-- `Tail._simplify_down` on an Elemwise frame: `Tail(op, n) if isinstance(op, Expr) else op`
-    — every Expr operand, also the ones the frame broadcasts -/
-def tailPush (_selfNdim : Nat) (ops : List Operand) (n : Nat) : List (Option Nat) :=
-  ops.map (fun o => if o.isExpr then some n else none)
+/-- `Tail._simplify_down` on an Elemwise frame (as fixed by D64): the same guard and the same operands as Head -/
+def tailPush (selfNdim selfNp : Nat) (ops : List Operand) (n : Nat) : Option (List (Option Nat)) :=
+  if ambiguous selfNdim selfNp ops then none
+  else some (ops.map (fun o => if o.isExpr && !broadcastDep selfNdim false o then some n else none))
 
 def tailNested (nOuter nInner : Nat) : Nat := min nOuter nInner
 
